@@ -1,9 +1,13 @@
 """C15 - realtime dispatcher: nothing early, everything due is dispatched, per-source order, idle handlers (DESIGN.md 4).
 
-Real RealtimeDispatcher on the virtual loop with a virtual utc_now(). Every arrival pattern of <= 3 (quick) / <= 4
-(thorough) events over 2 sources (push instant x timestamp offset: past / now / future by 2.5 poll periods, so events older
-than their predecessor are in the alphabet), scheduled jobs (past, now, future), 0-2 idle handlers, max_concurrent
-1/2/50, and every assignment of handler durations {0, half a poll period, 3.5 poll periods} chosen by the explorer.
+Real RealtimeDispatcher on the virtual loop. The library's own clock function (basana.core.dt.utc_now) runs: the virtual
+clock is substituted underneath it (worlds/dsp.py), and part of the scenarios run with the process's local time zone east /
+west of UTC. Every arrival pattern of <= 3 (quick) / <= 4 (thorough) events over 2 sources (push instant x timestamp
+offset: past / now / future by 2.5 poll periods, so events older than their predecessor are in the alphabet), scheduled jobs
+(past, now, future, far beyond the end of the run; two and three jobs at exactly the same instant; every 3- and 4-tuple of
+job times = every insertion order; jobs scheduled from an event handler and from another job), front-running and trailing
+catch-all handlers, 0-2 idle handlers, max_concurrent 1/2/50, and every assignment of handler durations {0, half a poll
+period, 3.5 poll periods} chosen by the explorer.
 """
 import asyncio
 import itertools
@@ -12,27 +16,40 @@ import basana as bs
 
 from mc.chooser import Chooser, explore
 from mc.framework import Result, h64
-from worlds.dsp import T, run_on_vloop, secs
+from worlds.dsp import T, local_tz, run_on_vloop, secs
 
 PROPERTY = "C15"
-RULE = ("scenario = (arrivals (source, push instant, timestamp offset), job times, max_concurrent, #idle handlers); per "
-        "scenario every assignment of handler durations (chooser, exhaustive for <=2 arrivals, deviation bound "
-        "otherwise) runs on the real dispatcher under a virtual clock. Distinct = distinct (scenario, dispatch trace); "
-        "non-trivial = at least two dispatches.")
+RULE = ("scenario = (arrivals (source, push instant, timestamp offset), job times in insertion order, max_concurrent, #idle "
+        "handlers, time-zone mix of the timestamps, options: local time zone of the process / catch-all handlers / jobs "
+        "scheduled from handlers and jobs); per scenario every assignment of handler durations (chooser, exhaustive for "
+        "<=3 arrivals+jobs, deviation bound otherwise) runs on the real dispatcher under a virtual clock. Distinct = "
+        "distinct (scenario, dispatch trace); non-trivial = at least two dispatches.")
 ASSUMPTIONS = [
-    "virtual clock substituted for basana.core.dt.utc_now and the event loop clock; poll period 0.01 s as configured",
+    "virtual clock substituted UNDERNEATH basana.core.dt.utc_now (datetime.now / utcnow / time.time as seen by "
+    "basana.core.dt and basana.core.dispatcher) and for the event loop clock; poll period 0.01 s as configured",
     "arrival instants {0, 1.5, 3} poll periods, timestamps = arrival instant + {-2, 0, +2.5} poll periods",
+    "job times {-1, 0, 0.02, 0.045, 3600} s relative to the start; a job for 3600 s must not run during the 0.3 s of the run",
     "bounded liveness: everything due before 0.1 s must have been dispatched when the run is stopped at 0.3 s",
+    "local time zones of the process: unset (UTC), JST-9, EST5 (POSIX TZ strings)",
+    "catch-all handlers do not suspend; how a handler ends (returns / is cancelled) is not part of the statement",
 ]
-BOUNDS = {"quick": dict(max_arrivals=3, deviation_bound=1), "thorough": dict(max_arrivals=4, deviation_bound=2)}
+BOUNDS = {"quick": dict(max_arrivals=3, max_jobs=4, deviation_bound=1),
+          "thorough": dict(max_arrivals=4, max_jobs=4, deviation_bound=2)}
 EXPLANATION = ("implementation-level model checking on a virtual clock; traces_validated_against_impl counts executions "
                "re-run from their recorded choices with identical observations")
 PUSH_AT = (0.0, 0.015, 0.03)
 OFFS = (-0.02, 0.0, 0.025)
 DURS = (0.0, 0.005, 0.035)
 STOP_AT = 0.3
+DUE_BEFORE = 0.1
+JOB_TIMES = (-1.0, 0.0, 0.02, 0.045, 3600.0)
+LOCAL_TZS = ("JST-9", "EST5")
 import datetime as _dt  # noqa: E402
 TZS = (_dt.timezone(_dt.timedelta(hours=-5)), _dt.timezone(_dt.timedelta(hours=5, minutes=30)), _dt.timezone.utc)
+
+
+def _opts(**kw):
+    return tuple(sorted(kw.items()))
 
 
 def scenarios(tier, seed):
@@ -51,6 +68,32 @@ def scenarios(tier, seed):
                         out.append((arrivals, jobs, maxc, nidle))
                         if jobs and maxc == 2 and nidle == 0:
                             out.append((arrivals, jobs, maxc, nidle, True))
+            if na == 1:
+                # distinct jobs for exactly the same instant (also: the same instant expressed in different time zones)
+                for jobs in ((0.02, 0.02), (0.0, 0.0, 0.0)):
+                    for maxc in (1, 2, 50):
+                        out.append((arrivals, jobs, maxc, 0))
+                        out.append((arrivals, jobs, maxc, 1, True))
+                # the library's own clock function under a local time zone east / west of UTC
+                for tz in LOCAL_TZS:
+                    out.append((arrivals, (0.02, 0.0), 2, 0, False, _opts(tz=tz)))
+                # jobs scheduled while running: from the handler of the arrival, from job 0 / job 1 (relative to that instant)
+                for dyn in ((("ev0", 0.0),), (("ev0", 0.02), ("ev0", 0.02)), (("job0", 0.0), ("job1", 0.02)),
+                            (("job0", 0.02), ("ev0", 3600.0))):
+                    for maxc in (1, 2):
+                        out.append((arrivals, (0.02, 0.0), maxc, 0, False, _opts(dyn=dyn)))
+            if na == 2:
+                # catch-all handlers (front-running and trailing) next to the sources' handlers
+                out.append((arrivals, (), 2, 0, False, _opts(sniff=True)))
+    # three and four jobs in every insertion order (heap shapes), including far-future ones
+    for nj in (3, 4):
+        for jobs in itertools.product(JOB_TIMES, repeat=nj):
+            if nj == 3:
+                for maxc in (1, 2):
+                    out.append(((), jobs, maxc, 0))
+                out.append((((0, 0.015, 0.0),), jobs, 1, 0))
+            elif len(set(jobs)) >= 3 or tier == "thorough":
+                out.append(((), jobs, 2, 0))
     # three arrivals on (mostly) one source: out-of-order chains
     alpha3 = [(si, at, off) for si in (0, 1) for at in PUSH_AT for off in OFFS]
     for arrivals in itertools.product(alpha3, repeat=3):
@@ -58,8 +101,8 @@ def scenarios(tier, seed):
             continue
         if sum(1 for a in arrivals if a[0] == 0) < 2:
             continue
-        for jobs, maxc, nidle in (((), 2, 0), ((0.02, 0.0), 1, 1)):
-            out.append((arrivals, jobs, maxc, nidle))
+        out.append((arrivals, (), 2, 0, False, _opts(sniff=True)))
+        out.append((arrivals, (0.02, 0.0), 1, 1))
     if tier == "thorough":
         for arrivals in itertools.product(alpha3, repeat=4):
             if list(a[1] for a in arrivals) != sorted(a[1] for a in arrivals):
@@ -71,9 +114,17 @@ def scenarios(tier, seed):
     return out
 
 
-def make_run(sc, states=None):
+def parse(sc):
     arrivals, jobs, maxc, nidle = sc[:4]
-    tzmix = len(sc) > 4 and sc[4]
+    tzmix = len(sc) > 4 and bool(sc[4])
+    opts = dict(sc[5]) if len(sc) > 5 else {}
+    return arrivals, jobs, maxc, nidle, tzmix, opts
+
+
+def make_run(sc, states=None):
+    arrivals, jobs, maxc, nidle, tzmix, opts = parse(sc)
+    dyn = opts.get("dyn", ())
+    sniff = opts.get("sniff", False)
 
     def run_one(ch):
         d = bs.realtime_dispatcher(max_concurrent=maxc)
@@ -96,10 +147,27 @@ def make_run(sc, states=None):
             if DURS[k]:
                 await asyncio.sleep(DURS[k])
 
+        def schedule_dynamic(origin):
+            for k, (org, rel) in enumerate(dyn):
+                if org == origin:
+                    due = round(now() + rel, 6)
+                    trace.append(("sched", k, round(now(), 6), due))
+
+                    async def dj(k=k, due=due):
+                        active[0] += 1
+                        trace.append(("dynjob", k, round(now(), 6), due))
+                        note()
+                        try:
+                            await work("dyn")
+                        finally:
+                            active[0] -= 1
+                    d.schedule(T(due), dj)
+
         def mkh(si):
             async def h(e):
                 active[0] += 1
                 trace.append(("ev", si, e._tag, round(now(), 6), round(secs(e.when), 6)))
+                schedule_dynamic("ev%d" % e._tag)
                 note()
                 try:
                     await work("ev")
@@ -107,12 +175,21 @@ def make_run(sc, states=None):
                     active[0] -= 1
             return h
 
+        def mkall(stage):
+            async def h(e):
+                trace.append(("all", stage, e._src, e._tag, round(now(), 6), round(secs(e.when), 6)))
+            return h
+
         for si, s in enumerate(srcs):
             d.subscribe(s, mkh(si))
+        if sniff:
+            d.subscribe_all(mkall("pre"), front_run=True)
+            d.subscribe_all(mkall("post"))
         for ji, jt in enumerate(jobs):
             async def j(ji=ji, jt=jt):
                 active[0] += 1
                 trace.append(("job", ji, round(now(), 6), jt))
+                schedule_dynamic("job%d" % ji)
                 note()
                 try:
                     await work("job")
@@ -133,6 +210,7 @@ def make_run(sc, states=None):
                 when = T(now() + off)
                 e = bs.Event(when.astimezone(TZS[n % len(TZS)]) if tzmix else when)
                 e._tag = n
+                e._src = si
                 srcs[si].push(e)
                 trace.append(("push", si, n, round(now(), 6), round(now() + off, 6)))
             await asyncio.sleep(STOP_AT - now())
@@ -145,16 +223,17 @@ def make_run(sc, states=None):
         def on_step(loop):
             holder["loop"] = loop
 
-        out, exc, loop = run_on_vloop(lambda loop: holder.setdefault("loop", loop) and main(), on_step=on_step,
-                                      horizon=5.0, max_steps=100000)
+        with local_tz(opts.get("tz")):
+            out, exc, loop = run_on_vloop(lambda loop: holder.setdefault("loop", loop) and main(), on_step=on_step,
+                                          horizon=5.0, max_steps=100000)
         if exc is not None:
             out = "raised:" + type(exc).__name__
-        return dict(out=out, trace=trace, errors=errors)
+        return dict(out=out, trace=trace, errors=errors, seam=loop.clock_seam)
     return run_one
 
 
 def oracle(sc, r):
-    arrivals, jobs, maxc, nidle = sc[:4]
+    arrivals, jobs, maxc, nidle, tzmix, opts = parse(sc)
     bad = []
     if r["out"] != "returned":
         bad.append(("run-outcome", r["out"]))
@@ -164,7 +243,9 @@ def oracle(sc, r):
     for x in tr:
         if x[0] == "ev" and x[3] < x[4] - 1e-9:
             bad.append(("event-early", f"event stamped {x[4]} dispatched at {x[3]}"))
-        if x[0] == "job" and x[2] < x[3] - 1e-9:
+        if x[0] == "all" and x[4] < x[5] - 1e-9:
+            bad.append(("event-early", f"event stamped {x[5]} given to a catch-all handler at {x[4]}"))
+        if x[0] in ("job", "dynjob") and x[2] < x[3] - 1e-9:
             bad.append(("job-early", f"job scheduled for {x[3]} ran at {x[2]}"))
         if x[0] == "idle" and x[3] != 0:
             bad.append(("idle-while-busy", f"idle handler started at {x[2]} with {x[3]} handlers active"))
@@ -179,39 +260,57 @@ def oracle(sc, r):
                 continue
             last = p[4]
             expect.append(p[2])
-        got = [x[2] for x in tr if x[0] == "ev" and x[1] == si and x[3] < stop_t]
-        if got != expect:
-            clause = "delivery"
-            if len(got) != len(set(got)):
-                clause = "delivered-twice"
-            elif set(got) - set(expect):
-                clause = "out-of-order-delivered"
-            elif set(expect) - set(got):
-                clause = "not-delivered"
-            else:
-                clause = "source-order"
-            bad.append((clause, f"source {si}: delivered {got}, expected {expect}"))
-        times = [x[4] for x in tr if x[0] == "ev" and x[1] == si]
-        if times != sorted(times):
-            bad.append(("source-order", f"source {si}: delivered timestamps {times}"))
+        points = [("handler", [(x[2], x[3], x[4]) for x in tr if x[0] == "ev" and x[1] == si])]
+        if opts.get("sniff"):
+            for stage in ("pre", "post"):
+                points.append((stage + " catch-all handler",
+                               [(x[3], x[4], x[5]) for x in tr if x[0] == "all" and x[1] == stage and x[2] == si]))
+        for name, recs in points:
+            got = [tag for (tag, at, when) in recs if at < stop_t]
+            # events are handled concurrently: the trailing catch-all handlers get an event when ITS handlers are done,
+            # so only what they receive is checked there, not in which order
+            ordered = not name.startswith("post")
+            if (got != expect) if ordered else (sorted(got) != sorted(expect)):
+                clause = "delivery"
+                if len(got) != len(set(got)):
+                    clause = "delivered-twice"
+                elif set(got) - set(expect):
+                    clause = "out-of-order-delivered"
+                elif set(expect) - set(got):
+                    clause = "not-delivered"
+                else:
+                    clause = "source-order"
+                bad.append((clause, f"source {si} ({name}): delivered {got}, expected {expect}"))
+            times = [when for (tag, at, when) in recs]
+            if ordered and times != sorted(times):
+                bad.append(("source-order", f"source {si} ({name}): delivered timestamps {times}"))
     if len(r["errors"]) != n_dropped:
         bad.append(("drop-not-reported", f"{n_dropped} out-of-order events but {len(r['errors'])} error reports"))
     for ji, jt in enumerate(jobs):
         n = sum(1 for x in tr if x[0] == "job" and x[1] == ji)
-        if n != 1:
+        want = 1 if jt <= DUE_BEFORE else 0 if jt >= STOP_AT else None
+        if want is not None and n != want:
             bad.append(("job-count", f"job {ji}@{jt} ran {n}x"))
+    for x in tr:
+        if x[0] == "sched":
+            n = sum(1 for y in tr if y[0] == "dynjob" and y[1] == x[1])
+            want = 1 if x[3] <= DUE_BEFORE else 0 if x[3] >= STOP_AT else None
+            if want is not None and n != want:
+                bad.append(("job-count", f"job scheduled at {x[2]} for {x[3]} (while running) ran {n}x"))
     return bad
 
 
 def run_scenario(sc, tier):
     res = Result()
-    bound = None if len(sc[0]) + len(sc[1]) <= 3 else BOUNDS[tier]["deviation_bound"]
+    bound = None if len(sc[0]) + len(sc[1]) <= 3 and not (len(sc) > 5 and dict(sc[5]).get("dyn")) \
+        else BOUNDS[tier]["deviation_bound"]
     first = True
     for choices, tr, r in explore(make_run(sc, res.states), bound):
         res.executions += 1
         res.transitions += len(tr) + 1
         res.outcomes[r["out"]] += 1
-        if sum(1 for x in r["trace"] if x[0] in ("ev", "job")) >= 2:
+        res.extra["clock_seam_" + str(r["seam"])] += 1
+        if sum(1 for x in r["trace"] if x[0] in ("ev", "job", "dynjob")) >= 2:
             res.nontrivial.add(h64((sc, tuple(r["trace"]))))
         bad = oracle(sc, r)
         if first or bad:
@@ -225,14 +324,20 @@ def run_scenario(sc, tier):
             first = False
         for clause, detail in bad:
             res.violation(f"{PROPERTY}:{clause}", f"{detail}; scenario={sc} choices={choices}",
-                          dict(scenario=[list(map(list, sc[0])), list(sc[1]), sc[2], sc[3], len(sc) > 4 and sc[4]], choices=choices),
+                          dict(scenario=[list(map(list, sc[0])), list(sc[1]), sc[2], sc[3], len(sc) > 4 and sc[4],
+                                         list(sc[5]) if len(sc) > 5 else []], choices=choices),
                           size=100 * (len(sc[0]) + len(sc[1])) + 10 * sc[3] + sum(1 for c in choices if c))
     return res
 
 
+def _tuplify(x):
+    return tuple(_tuplify(y) for y in x) if isinstance(x, (list, tuple)) else x
+
+
 def replay(rep):
     s = rep["scenario"]
-    sc = (tuple(tuple(a) for a in s[0]), tuple(s[1]), s[2], s[3], bool(s[4]) if len(s) > 4 else False)
+    sc = (tuple(tuple(a) for a in s[0]), tuple(s[1]), s[2], s[3], bool(s[4]) if len(s) > 4 else False,
+          _tuplify(s[5]) if len(s) > 5 else ())
     r = make_run(sc)(Chooser(rep["choices"]))
     print("scenario:", sc)
     for x in r["trace"]:
